@@ -130,7 +130,7 @@ def run(tier):
   if tier == 'quick':
     base = rnd.sample(sk, 50) + gen.random_programs(50, R.seed + 13, FEATURES)
   else:
-    base = sk + gen.random_programs(700, R.seed + 13, FEATURES)
+    base = sk + gen.random_programs(300, R.seed + 13, FEATURES)
   progs = [inject(p, rnd, i) for i, p in enumerate(base)]
   progs += [gen.Prog(n, s, {'extra'}) for n, s in EXTRA]
   bounds = {'n': 3, 'len': 2}
